@@ -42,7 +42,7 @@ def config(rng, tier):
         "maxn": rng.choice([8] * 16 + [24, 40, 120]),
         # tier-name universe: the property's 4 plain names, or names with awkward shapes, or 10 names
         "names": rng.choice(["abcd"] * 6 + ["prefix", "odd", "unicode", "many"]),
-        "ulps": rng.random() < 0.3,  # decimal regime: window / region edges also one ulp or 1e-9 off a boundary
+        "ulps": rng.random() < 0.5,  # decimal regime: window / region edges also one ulp or 1e-9 off a boundary
     }
 
 
